@@ -83,6 +83,7 @@ public:
 
     // finally clean all messages
     _stored_events.clear();
+    _index = 0;
   }
 
   /***/
